@@ -12,7 +12,7 @@ STUBS = ["hmac.new(...).digest(), hashlib.new/sha256, PBKDF2HMAC.derive, argon2 
 ASSUMPTIONS = [
     "that HMAC/SHA/PBKDF2/Argon2id/Ed25519 as implemented by OpenSSL/libsodium/argon2-cffi produce standard outputs is outside solver reach (RFC vectors stay with the existing tests); decided here is the composition around them for ALL digests/keys/challenges",
 ]
-BOUNDS = {"quick": "TOTP: every 20-octet digest (free), every time 0..2^40, offsets -1,0,1; CRA: free 32-octet digests, key lengths {16,32,57,58,64,96}, salted and unsalted; SCRAM: free 32-octet KDF/HMAC/hash outputs, every 32-octet alleged server signature, both KDFs, WELCOME with/without prior CHALLENGE; cryptosign: all 32+32 octets of challenge and channel id",
+BOUNDS = {"quick": "TOTP: every 20-octet digest (free), every time 0..2^40, offsets -1,0,1; CRA: free 32-octet digests, key lengths {16,32,57,58,64,96}, salted and unsalted; SCRAM: free 32-octet KDF/HMAC/hash outputs, every 32-octet alleged server signature, both KDFs, WELCOME with/without prior CHALLENGE; cryptosign: all 32+32 octets of challenge and channel id; one SCRAM authenticator answering two challenges that differ in memory / iterations / salt / nonce; _sign_challenge over all 64+32 octets, signer answering at once or later, Twisted and asyncio",
           "thorough": "same plus key lengths 1..128"}
 EXPECT_COVERS = ["totp", "totp:check", "cra:salted", "cra:plain", "scram:proof", "scram:welcome-accept", "scram:welcome-reject", "scram:no-challenge", "scram:no-signature", "cryptosign:bound", "cryptosign:unbound", "cryptosign:signed", "scram:twice"]
 BUDGET = {"quick": dict(wall_s=300, max_paths=20000, diff_samples=3), "thorough": dict(wall_s=1800)}
